@@ -439,6 +439,19 @@ def evaluate(ctx, cases):
         if not ok:
             st['disagreements'] += 1
             report('moPepGen.cli.parse_circexplorer: ' + why, c, None)
+    # real argument parser vs hand-built Namespace: same GVF (or the same exception class)
+    st['argv_route_runs'] = 0
+    for c, r in zip(cases, impl):
+        if not (isinstance(r, dict) and 'cli_argv' in r):
+            continue
+        st['argv_route_runs'] += 1
+        av, hv = r['cli_argv'], r.get('cli_hand')
+        av = {'__exc__': av['__exc__']} if isinstance(av, dict) else av
+        hv = {'__exc__': hv['__exc__']} if isinstance(hv, dict) else hv
+        if av != hv:
+            report('parseCIRCexplorer through the real argument parser (%s%s%s) gives %s, the entry function called with the same '
+                   'options gives %s' % ('--circexplorer3 ' if c['ce3'] else '', '--index-dir' if c.get('argv_index') else 'reference files',
+                                          ' --skip-failed' if c.get('skip_failed') else '', str(r['cli_argv'])[:200], str(hv)[:200]), c, None)
     st['correspondence_breaks'] = seen_corr
     viol.sort(key=lambda v: v['no_input'])
     return viol, st
@@ -473,6 +486,16 @@ def run(ctx):
             pass
     n_corpus = len(cases)
     cases += gen_cases(ctx)
+    # a small stream through the REAL argument parser (harness/impl/_argv_route.py): CE2 and CE3 layouts, every option
+    # on the command line (thresholds, ranges, --source, --reference-source / --index-dir, --skip-failed)
+    k = 0
+    for i, c in enumerate(cases[n_corpus:]):
+        if i % 8 == 0:
+            c['argv'] = True
+            c['skip_failed'] = (k % 2 == 1)
+            if k in (0, 1, 2):
+                c['argv_index'] = True
+            k += 1
     viol, st = evaluate(ctx, cases)
     samples = [{k: r[k] for k in ('tx', 'start', 'end', 'sizes', 'offsets', 'type', 'reads', 'kind')} for r in cases[n_corpus]['rows'][:4]]
     return dict(
@@ -480,7 +503,7 @@ def run(ctx):
         rule='one evaluation = one CIRCexplorer row through parse/is_valid/convert_to_circ_rna (plus one per CLI run); non-trivial = '
              'the implementation produced a CircRNAModel for the row; rows are distinct by (world, transcript, blocks, thresholds)',
         samples=samples, distribution=dict(sorted(st['dist'].items())), disagreements=st['disagreements'],
-        declarative_checked=st['declarative_checked'], corpus_cases=n_corpus, cases=len(cases),
+        declarative_checked=st['declarative_checked'], argv_route_runs=st.get('argv_route_runs', 0), corpus_cases=n_corpus, cases=len(cases),
         correspondence_breaks=st['correspondence_breaks'], exon_edits=dict(EDIT_STATS), violations=viol,
         assumptions=['transcript strand = gene strand (FeatureLocation comparisons are modelled at equal strand)',
                      'FPBcirc / circscore and their thresholds are decimal numbers with at most 3 decimals (modelled as integers x1000)',
